@@ -1,4 +1,210 @@
-(* C09 -- placeholder while the harness is brought up *)
-From PyRTL Require Import Pass.Lower.
-Example C09_placeholder : fresh (mkNetlist [] [] []) = 1.
-Proof. vm_compute. reflexivity. Qed.
+(* C09 -- Lowering / restructuring passes preserve behaviour and meet their
+   postconditions.  Only statements + `exact`; proofs in Pass/RewriteSound.v
+   (generic lemma), Pass/GateSound.v + Pass/LowerSound.v (rule lemmas),
+   Pass/LowerPost.v (postconditions), Pass/LowerTheorems.v (assembly).
+   The model is Pass/Lower.v; the gate right-hand sides come from
+   Gen/LowerRules.v, regenerated from pyrtl/passes.py on every run. *)
+From PyRTL Require Import Pass.Lower Pass.RewriteSound Pass.GateSound Pass.LowerSound Pass.LowerPost
+  Pass.LowerTheorems Gen.LowerRules Netlist.Sanity.
+
+(* ===== (2) the generic lemma ===== *)
+(* A rule that, net by net, yields a sub-netlist computing on the old
+   destination what the old net computed, from the same arguments, writing only
+   fresh wires ([rule_ok]), preserves -- for EVERY state and EVERY input sequence,
+   cycle by cycle -- the value of every old wire, and the registers and memories. *)
+Theorem C09_local_rewrite_sound : forall P rl nl,
+  rule_ok P rl nl (fresh nl) -> Forall P (nets nl) ->
+  forall dflt st inss,
+    Forall2 (agree (fresh nl)) (fst (run nl dflt st inss)) (fst (run (apply_rule rl nl) dflt st inss))
+    /\ st_eq (snd (run nl dflt st inss)) (snd (run (apply_rule rl nl) dflt st inss)).
+Proof. exact local_rewrite_sound. Qed.
+Print Assumptions C09_local_rewrite_sound.
+
+(* ===== (1) the rule lemmas, all widths and all values ===== *)
+(* ANY gate program whose 1-bit truth table is that of the 2-input op it
+   replaces ([rules_ok]: a decidable check) is a sound rewrite at every width:
+   bitwise identities by Z.testbit extensionality, no range assumption on the
+   argument values. *)
+Theorem C09_gate_rule_all_widths : forall keep rules nl B,
+  rules_ok rules = true -> rule_ok (gate_net_ok nl) (gate_rule keep rules) nl B.
+Proof. exact gate_rule_ok. Qed.
+Print Assumptions C09_gate_rule_all_widths.
+
+(* the tables translated from passes.py pass that check: & | ^ via nand/not ... *)
+Theorem C09_nand_synth_rules_truth_tables : rules_ok nand_synth_rules = true.
+Proof. exact nand_synth_rules_ok. Qed.
+Print Assumptions C09_nand_synth_rules_truth_tables.
+
+(* ... and | ^ n via and/not (holds since the xor right-hand side was repaired) *)
+Theorem C09_and_inverter_synth_rules_truth_tables : rules_ok and_inverter_synth_rules = true.
+Proof. exact and_inverter_synth_rules_ok. Qed.
+Print Assumptions C09_and_inverter_synth_rules_truth_tables.
+
+(* n-ary concat = left fold of 2-way concats (associativity; intermediate
+   results reduced modulo their width) *)
+Theorem C09_two_way_concat_rule : forall nl B,
+  rule_ok (concat_net_ok nl) two_way_concat_rule nl B.
+Proof. exact two_way_concat_rule_ok. Qed.
+Print Assumptions C09_two_way_concat_rule.
+
+(* select = concat of 1-bit selects (of the low len(dest) indices) *)
+Theorem C09_one_bit_selects_rule : forall nl B,
+  rule_ok (select_net_ok nl) one_bit_selects_rule nl B.
+Proof. exact one_bit_selects_rule_ok. Qed.
+Print Assumptions C09_one_bit_selects_rule.
+
+(* ===== behaviour preservation of the four rule-based passes =====
+   for every netlist accepted by the sanity_check model: every declared wire (so
+   every Output) has the same value on every cycle of every input sequence from
+   every state; registers and memories stay equal. *)
+Theorem C09_nand_synth_preserves : forall nl,
+  sanity_block nl = true -> preserved nl (nand_synth nl).
+Proof. exact nand_synth_preserves_sane. Qed.
+Print Assumptions C09_nand_synth_preserves.
+
+Theorem C09_and_inverter_synth_preserves : forall nl,
+  sanity_block nl = true -> preserved nl (and_inverter_synth nl).
+Proof. exact and_inverter_synth_preserves_sane. Qed.
+Print Assumptions C09_and_inverter_synth_preserves.
+
+Theorem C09_two_way_concat_preserves : forall nl,
+  sanity_block nl = true -> preserved nl (two_way_concat nl).
+Proof. exact two_way_concat_preserves_sane. Qed.
+Print Assumptions C09_two_way_concat_preserves.
+
+Theorem C09_one_bit_selects_preserves : forall nl,
+  sanity_block nl = true -> preserved nl (one_bit_selects nl).
+Proof. exact one_bit_selects_preserves_sane. Qed.
+Print Assumptions C09_one_bit_selects_preserves.
+
+(* ===== (3) postconditions, all netlists ===== *)
+Theorem C09_nand_synth_post : forall nl,
+  pre_nand_synth nl = true -> post_nand_synth (nand_synth nl) = true.
+Proof. exact nand_synth_post. Qed.
+Print Assumptions C09_nand_synth_post.
+
+Theorem C09_and_inverter_synth_post : forall nl,
+  pre_and_inverter_synth nl = true -> post_and_inverter_synth (and_inverter_synth nl) = true.
+Proof. exact and_inverter_synth_post. Qed.
+Print Assumptions C09_and_inverter_synth_post.
+
+Theorem C09_two_way_concat_post : forall nl next,
+  post_two_way_concat (apply_rule_at next two_way_concat_rule nl) = true.
+Proof. exact two_way_concat_post. Qed.
+Print Assumptions C09_two_way_concat_post.
+
+Theorem C09_one_bit_selects_post : forall nl,
+  sanity_block nl = true -> post_one_bit_selects (one_bit_selects nl) = true.
+Proof. exact one_bit_selects_post_sane. Qed.
+Print Assumptions C09_one_bit_selects_post.
+
+(* two_way_fanout, the tree lemma (induction on the fuel = number of uses): in
+   _make_tree's result the root is read once, every new wire exactly twice,
+   nothing else; and it has one leaf per use. *)
+Theorem C09_fanout_tree_counts : forall fuel w n next tn lv nx,
+  w < next -> make_tree fuel w n next = (tn, lv, nx) ->
+  forall x, count x (flat_map nargs tn ++ lv)
+            = if x =? w then 1%nat else if (next <=? x) && (x <? nx) then 2%nat else 0%nat.
+Proof. exact make_tree_counts. Qed.
+Print Assumptions C09_fanout_tree_counts.
+
+Theorem C09_fanout_tree_leaves : forall fuel w n next tn lv nx,
+  (n <= fuel)%nat -> (1 <= n)%nat -> make_tree fuel w n next = (tn, lv, nx) -> length lv = n.
+Proof. exact make_tree_leaves. Qed.
+Print Assumptions C09_fanout_tree_leaves.
+
+(* Full statements NOT proved here (checked by correspondence + census on every
+   run instead): the whole-netlist fan-out bound, and behaviour preservation of
+   the two graph-edit passes (these need the in-range invariant of valuations,
+   which the rule-based passes do not). *)
+Definition C09_two_way_fanout_post_full_statement : Prop :=
+  forall nl, sanity_block nl = true -> post_two_way_fanout (two_way_fanout nl) = true.
+Definition C09_graph_edits_preserve_full_statement : Prop :=
+  forall nl, sanity_block nl = true ->
+    preserved nl (two_way_fanout nl)
+    /\ forall dflt st inss,
+         Forall2 (fun v v' => forall x, In x (wires (direct_connect_outputs nl)) -> v (wname x) = v' (wname x))
+                 (fst (run nl dflt st inss)) (fst (run (direct_connect_outputs nl) dflt st inss)).
+
+(* ===== non-vacuity: a sane design exercising every rule ===== *)
+Definition ex_nl : netlist :=
+  mkNetlist [mkWire 1 3 KInput; mkWire 2 3 KInput; mkWire 3 3 KWire; mkWire 4 3 KOutput;
+             mkWire 5 2 KOutput; mkWire 6 2 KWire; mkWire 7 9 KWire; mkWire 8 8 KOutput;
+             mkWire 9 3 KWire; mkWire 10 3 KWire; mkWire 11 3 KOutput; mkWire 12 3 (KReg (Some 5));
+             mkWire 13 3 KWire; mkWire 14 3 KOutput]
+    [mkNet OpXor [1; 2] 3; mkNet OpW [3] 4; mkNet (OpSelect [0; 2; 2]) [3] 6; mkNet OpW [6] 5;
+     mkNet OpConcat [1; 3; 2] 7; mkNet OpW [7] 8; mkNet OpOr [1; 12] 9; mkNet OpNand [9; 3] 10;
+     mkNet OpAnd [10; 10] 13; mkNet OpW [13] 14;
+     mkNet OpW [10] 11; mkNet OpReg [9] 12] [].
+
+Definition ex_outs (vs : list (wid -> Z)) : list (list Z) := map (fun v => map v [4; 5; 8; 11; 14]) vs.
+Definition ex_run (nl : netlist) : list (list Z) :=
+  ex_outs (fst (run nl 0 (init_state nl 0 [] [])
+                    [(fun w => if w =? 1 then 5 else 3); (fun w => if w =? 1 then 7 else 1)])).
+
+Example C09_example_hypotheses :
+  sanity_block ex_nl = true /\ pre_nand_synth ex_nl = true /\ pre_and_inverter_synth ex_nl = true.
+Proof. vm_compute. repeat split; reflexivity. Qed.
+
+Example C09_example_traces :
+  ex_run ex_nl = [[6; 2; 115; 3; 3]; [6; 2; 241; 1; 1]]
+  /\ ex_run (nand_synth ex_nl) = ex_run ex_nl /\ ex_run (and_inverter_synth ex_nl) = ex_run ex_nl
+  /\ ex_run (two_way_concat ex_nl) = ex_run ex_nl /\ ex_run (one_bit_selects ex_nl) = ex_run ex_nl
+  /\ ex_run (direct_connect_outputs ex_nl) = ex_run ex_nl /\ ex_run (two_way_fanout ex_nl) = ex_run ex_nl.
+Proof. vm_compute. repeat split; reflexivity. Qed.
+
+Example C09_example_passes_change_the_netlist :
+  (length (nets (nand_synth ex_nl)), length (nets (and_inverter_synth ex_nl)),
+   length (nets (two_way_concat ex_nl)), length (nets (one_bit_selects ex_nl)),
+   length (nets (direct_connect_outputs ex_nl)), length (nets (two_way_fanout ex_nl)))
+  = (21, 25, 14, 15, 9, 21)%nat /\ length (nets ex_nl) = 12%nat.
+Proof. vm_compute. split; reflexivity. Qed.
+
+Example C09_example_postconditions :
+  post_nand_synth (nand_synth ex_nl) = true /\ post_and_inverter_synth (and_inverter_synth ex_nl) = true
+  /\ post_two_way_concat (two_way_concat ex_nl) = true /\ post_one_bit_selects (one_bit_selects ex_nl) = true
+  /\ post_direct_connect_outputs (direct_connect_outputs ex_nl) = true
+  /\ post_two_way_fanout (two_way_fanout ex_nl) = true
+  /\ post_two_way_fanout ex_nl = false /\ post_direct_connect_outputs ex_nl = false
+  /\ sanity_block (direct_connect_outputs ex_nl) = true /\ sanity_block (two_way_fanout ex_nl) = true.
+Proof. vm_compute. repeat split; reflexivity. Qed.
+
+(* every 1-bit input pair of every rule, evaluated (the sweep behind rules_ok) *)
+Example C09_example_xor_aig_truth_table :
+  match find_rule 94 and_inverter_synth_rules with
+  | Some r => map (fun ab => beval r (fst ab) (snd ab)) [(false, false); (false, true); (true, false); (true, true)]
+  | None => []
+  end = [false; true; true; false].
+Proof. vm_compute. split; reflexivity. Qed.
+
+(* ===== direct_connect_outputs on a register producer (F4) =====
+   `r.next <<= i; o <<= r`: the repaired code (dco_skips in Pass/Lower.v: '@' and
+   'r' producers are skipped) leaves the design alone and well-formed ... *)
+Theorem C09_dco_register_producer_kept :
+  sanity_block dco_reg_witness = true
+  /\ direct_connect_outputs dco_reg_witness = dco_reg_witness.
+Proof. vm_compute. split; reflexivity. Qed.
+Print Assumptions C09_dco_register_producer_kept.
+
+(* ... whereas skipping only '@' (the code before the repair) retargets the 'r'
+   net to the Output, which sanity_check rejects: the skip is necessary. *)
+Theorem C09_dco_unrepaired_wf_refuted :
+  exists nl, sanity_block nl = true /\ sanity_block (dco_with dco_skips_unrepaired nl) = false.
+Proof. exists dco_reg_witness. vm_compute. split; reflexivity. Qed.
+Print Assumptions C09_dco_unrepaired_wf_refuted.
+
+(* ===== REFUTED (kept last: a repair of the code breaks only what follows) =====
+   direct_connect_outputs does not reach its postcondition in one run on a chain
+   of 'w' nets (`t1 <<= ~a; t2 <<= t1; o <<= t2`): the retargeted `o <-w- t1`
+   is again a removable w-net before an Output.  The model follows the code. *)
+Definition C09_dco_post_full_statement : Prop :=
+  forall nl, sanity_block nl = true ->
+    post_direct_connect_outputs (direct_connect_outputs nl) = true.
+
+Theorem C09_dco_post_refuted :
+  exists nl, sanity_block nl = true
+             /\ post_direct_connect_outputs (direct_connect_outputs nl) = false
+             /\ post_direct_connect_outputs
+                  (direct_connect_outputs (direct_connect_outputs (direct_connect_outputs nl))) = true.
+Proof. exists dco_chain_witness. vm_compute. repeat split; reflexivity. Qed.
+Print Assumptions C09_dco_post_refuted.
